@@ -275,6 +275,10 @@ def run(rep: Report, tier: str) -> None:
     rep.floor("macro call sites", ncalls, 35)
     rep.analysed = {"sql_limits": sql_limits, "python_limits": py_limits, "shift_cells": ncell, "macro_calls": ncalls}
     iso_year_rule(rep, macros, "R08.5")
+    from sa import intdiv
+    rep.rule("R08.6", "time macros and generated time SQL: no `/` between integer-typed operands (DuckDB `/` is float division)")
+    ndiv = intdiv.rule(rep, P, "R08.6", only_macros=None, skeleton_prefixes=("vtlengine.duckdb_transpiler",))
+    rep.floor("R08.6 divisions examined", ndiv, 6)
     rep.assumptions = ["DuckDB integer semantics: `//` truncates toward zero, `%` keeps the sign of the dividend (checked once against the "
                        "installed DuckDB while writing the rule; not executed by the check)",
                        "calendar facts: ISO years have 52 or 53 weeks, years 365 or 366 days"]
